@@ -132,6 +132,7 @@ type Env struct {
 	Fast   func(...interface{}) interface{}
 	MkInts func(int) []int
 	MkItem func(int) *Item
+	Div    func(int, int) int // panics for a zero divisor
 
 	log *Log
 }
@@ -201,6 +202,7 @@ func New(l *Log) *Env {
 		}
 		return out
 	}
+	e.Div = func(a, b int) int { l.add("Div", a, b); return a / b }
 	e.MkItem = func(n int) *Item {
 		l.add("MkItem", n)
 		if n%3 == 0 {
